@@ -626,4 +626,22 @@ def runSel (stepf : SelSt → SelLabel → Option SelSt) (s : SelSt) : List SelL
     | some s' => runSel stepf s' ls
     | none => none
 
+/-! ### several calls in flight through one interceptor / several `DoWithTimeout` calls: each call has its own `done`,
+`panicChan`, lock and result variables (declared inside the per-call closure; Tie `tie_sem_no_state_between_calls`,
+`tie_sem_no_package_state`), so the calls form the free product of single-call systems. -/
+
+abbrev MSel := Nat → SelSt
+
+def MSel.init (works : Nat → Work) : MSel := fun i => { work := works i }
+
+def mselStep (stepf : SelSt → SelLabel → Option SelSt) (m : MSel) (i : Nat) (l : SelLabel) : Option MSel :=
+  match stepf (m i) l with
+  | some s' => some (fun j => if j = i then s' else m j)
+  | none => none
+
+inductive MSelReach (stepf : SelSt → SelLabel → Option SelSt) (works : Nat → Work) : MSel → Prop where
+  | init : MSelReach stepf works (MSel.init works)
+  | step {m m' : MSel} (i : Nat) (l : SelLabel) : MSelReach stepf works m → mselStep stepf m i l = some m' →
+      MSelReach stepf works m'
+
 end GoZero.C04
